@@ -888,11 +888,13 @@ def judge(ctx, seg, cases, hist_id):
                 ctx.fail(f"C08:rows-not-unique:{site}", f"crash {c['mode']} effect {c['k']} ({e['op']} {e['path']}): {why}", replay)
         if "mflags" in c:
             mrow = c["mflags"]["rowwin"] == "1"
-            if mrow != (not ok):
+            mrows_ok = c["mflags"]["rows"] == "1"
+            if mrows_ok != ok:
                 ctx.disagree({"segment": seg.label, "k": c["k"], "mode": c["mode"], "kind": kind, "what": "rows after continue"},
-                             f"ok={ok} {why}", f"model row window={mrow} rows={c['mflags']['rows']}")
-            if (c["mflags"]["rows"] == "1") != (not mrow):
-                ctx.disagree({"segment": seg.label, "k": c["k"], "what": "model rowsOK vs window"}, c["mflags"], "-")
+                             f"ok={ok} {why}", f"model rowsOK={mrows_ok} row window={mrow}")
+            if mrow and mrows_ok:
+                ctx.disagree({"segment": seg.label, "k": c["k"], "what": "model rowsOK inside its own row window"}, c["mflags"], "-")
+        c["rows_ok"] = ok
 
 
 # ----------------------------------------------------------------------------------------------
@@ -942,7 +944,8 @@ def run_history(ctx, work, spec0, need, hist_id, depth2=0, limit2=60):
                 "effects": len(seg.events), "crash_points": len(cases), "write_toml": seg.variant})
     # ---- crash after restart / double crash: enumerate again from crashed trees
     if depth2:
-        good = [c for c in cases if c["crashed"] and c["restart"].get("outcome") == "starts" and c["step"] is not None]
+        good = [c for c in cases if c["crashed"] and c["restart"].get("outcome") == "starts" and c["step"] is not None
+                and c.get("rows_ok")]
         # one per (step kind, site), deterministic order
         seen, picks = set(), []
         for c in good:
@@ -972,7 +975,9 @@ def second_life(ctx, seg, c, work, hist_id, n2, limit2):
     if seg.model_ok and c.get("mrestored") is not None and "mdisk" in c:
         pin = {p["pn"]: p for p in c["mrestored"]["live"]}
         man = dict(seg.steps[c["mpoint"][0]]["manifest"])
-        seg2.model0 = {"mem": c["mrestored"], "disk": c["mdisk"], "pinfo": pin, "manifest": man}
+        # leftovers in the worker directory are the worker's business (it cleans its directory): drop them
+        d0 = dict(c["mdisk"], files={k_: v for k_, v in c["mdisk"]["files"].items() if k_[0] != 6})
+        seg2.model0 = {"mem": c["mrestored"], "disk": d0, "pinfo": pin, "manifest": man}
         seg2.model_ok = True
         seg2.run_model()
     cases = enumerate_segment(ctx, seg2, work, f"B{n2}", limit_events=limit2)
